@@ -1464,7 +1464,7 @@ def _dmig(ctx):
         v.report(ctx, inst, wd)
     # wtdmig: rows written per column: col..n-1 for form 6 (one of each (i,j)/(j,i) pair), 0..n-1 otherwise - decided on what the tests passed on
     # the way to the write of a term say about the row, so a start index, a `continue` or a condition are the same thing
-    fors = [e for e in E.events("for")]
+    fors = [e for e in E.events(("for", "while"))]
     terms = [e for e in E.events("call") if is_write(e) and len(e.loops) >= 3 and isinstance(e.d["args"][0], S)]
     v = V()
     seen6 = seen_other = False
@@ -1472,9 +1472,11 @@ def _dmig(ctx):
         v.at(e.node)
         inner = [f for f in fors if f.d["loop"] == e.loops[-1]]
         outer = [f for f in fors if f.d["loop"] == e.loops[-2]]
-        if not inner or not outer or not all(isinstance(f.d["iter"], tuple) and f.d["iter"][:1] == ("range",) and isinstance(f.d["target"], Lin) for f in (inner[0], outer[0])):
+        ci, co = (_counted_loop(E, inner[0]) if inner else None), (_counted_loop(E, outer[0]) if outer else None)
+        if ci is None or co is None:
             v.unknown({"loops around the term": [show(f.d["iter"]) for f in inner + outer]})
             continue
+        inner, outer = [_AsRange(inner[0], ci)], [_AsRange(outer[0], co)]
         row, col = inner[0].d["target"], outer[0].d["target"]
         formv = None
         for a_ in reversed([x for x in E.events("assign") if x.d["name"] == fname and x.seq < e.seq and set(x.facts) <= set(e.facts)]):
@@ -1550,6 +1552,30 @@ def _dmig(ctx):
     if v.v is True and kinds != {1, 2, 3, 4}:
         v.unknown({"matrix types seen": sorted(kinds)})
     v.report(ctx, "wtdmig: double-precision types (even mtype) use the D exponent", wd)
+
+
+def _counted_loop(E, head):
+    """(index variable, first value, end value (exclusive)) of a loop that runs over consecutive integers, however it is spelled:
+    for i in range(lo, hi) / i = lo; while i < hi: ...; i += 1 / for i, x in enumerate(seq[lo:], lo)"""
+    it, tgt = head.d.get("iter"), head.d.get("target")
+    if isinstance(it, tuple) and it[:1] == ("range",) and isinstance(tgt, Lin) and it[3] == Lin(c=1):
+        return tgt, lin(it[1]), lin(it[2])
+    if isinstance(it, tuple) and it[:2] == ("op", "enumerate") and isinstance(tgt, tuple) and tgt[:1] == ("tuple",) and isinstance(tgt[1][0], Lin):
+        start = it[2][1] if len(it[2]) > 1 else (dict(it[3]).get("start", Lin()) if len(it) > 3 else Lin())
+        n = E.length(it[2][0], M.State(facts=head.facts))
+        if isinstance(n, Lin):
+            return tgt[1][0], lin(start), lin(start) + n
+    return None
+
+
+class _AsRange:
+    """a counted loop presented as `for target in range(lo, hi)`"""
+
+    def __init__(self, head, c):
+        self.d = dict(head.d)
+        self.d["target"] = c[0]
+        self.d["iter"] = ("range", c[1], c[2], Lin(c=1))
+        self.node, self.facts, self.loops, self.kind = head.node, head.facts, head.loops, head.kind
 
 
 def _excludes(facts, x, k):
@@ -1898,22 +1924,27 @@ def _tiling(ctx, E, q, seq, fn):
             elif e.kind == "for" and isinstance(e.d["iter"], tuple) and e.d["iter"][:1] == ("range",) and isinstance(e.d["target"], Lin):
                 # for k in range(lo, N, step): each pass must write [k, min(k + step, N))
                 it = e.d["iter"]
-                r, w = _differs(lin(it[1]) - wp, e.facts)
-                if r is True:
-                    v.bad({"the loop starts at": show(it[1]), "written up to": show(wp), "differ for": w}, e.node)
-                elif r is None:
-                    v.unknown({"the loop starts at": show(it[1]), "written up to": show(wp)}, e.node)
-                # only a loop whose variable is where the writes inside start is a loop over positions of the sequence
+                # only a loop whose variable (plus a fixed offset: a position counted from the start of a remainder) is where the writes inside start
+                # is a loop over positions of the sequence
                 inside = [_int_records(E, x, seq, N) for x in s.events if e.d["loop"] in x.loops and x.kind in ("format", "call")]
                 inside = [x for x in inside if x is not None]
-                if not inside or any("unknown" in x or x["a"] != e.d["target"] for x in inside):
+                offs = {x["a"] - e.d["target"] for x in inside if "unknown" not in x}
+                tsym = M.lin(e.d["target"]).atoms()
+                if not inside or any("unknown" in x for x in inside) or len(offs) != 1 or any(M.mentions(at, t_) for o_ in offs for at in o_.t for t_ in tsym):
                     if inside or any(x.kind == "call" and x.d["attr"] == "write" and e.d["loop"] in x.loops for x in s.events):
                         v.unknown({"loop": show(it), "writes inside": [x.get("unknown") or show(x["a"]) for x in inside][:3]}, e.node)
                         wp = None
                         break
                     continue
-                for_loops[e.d["loop"]] = (e.d["target"], it)
-                wp = e.d["target"]
+                off = next(iter(offs))
+                it = (it[0], lin(it[1]) + off, lin(it[2]) + off, it[3])
+                r, w = _differs(lin(it[1]) - wp, e.facts)
+                if r is True:
+                    v.bad({"the loop starts at": show(it[1]), "written up to": show(wp), "differ for": w}, e.node)
+                elif r is None:
+                    v.unknown({"the loop starts at": show(it[1]), "written up to": show(wp)}, e.node)
+                for_loops[e.d["loop"]] = (e.d["target"] + off, it)
+                wp = e.d["target"] + off
             elif e.kind == "loopend" and e.d["loop"] in for_loops:
                 k_, it = for_loops[e.d["loop"]]
                 want = M.mk_min([k_ + it[3], it[2]], e.facts)
@@ -2005,14 +2036,16 @@ def _thru(ctx, q, required=True):
         idxs = [i for _, vs in emitted for i in vs]
         first, last = idxs[0], idxs[-1]
         thru = any(_has_thru(a) for e, _ in emitted for a in e.d["args"])
-        # the cursor: the loop variable whose value at the head of the pass is the first index written
-        cursor = [nm for nm, x in w.d["env"].items() if lin(x) == first]
+        # the cursor: the loop variable from which the first index written in a pass is computed (the index itself, or the index minus a
+        # constant: the last index written, a count, ...); position = variable + offset
+        cursor = [(nm, first - lin(x)) for nm, x in sorted(w.d["env"].items()) if isinstance(x, (Lin, tuple)) and not isinstance(x, S) and (first - lin(x)).is_const()]
         if not cursor:
             v.unknown({"first element written": show(first)}, emitted[0][0].node)
             continue
-        nm = cursor[0]
-        new = lin(s_end.d["env"][nm])
+        nm, off = sorted(cursor, key=lambda c_: (c_[1] != Lin(), c_[0]))[0]
+        new = lin(s_end.d["env"][nm]) + off
         pre = w.d["pre"].get(nm)
+        pre = pre + off if isinstance(pre, Lin) else pre
         if isinstance(pre, Lin) and pre != Lin():
             (v.bad if pre.is_const() else v.unknown)({"the cursor starts at": show(pre), "expected": "0 (the first element)"}, w.node)
         elif not isinstance(pre, Lin):
